@@ -176,7 +176,7 @@ fn queries(g: &mut Game, out: &mut Out, reimport: bool) -> Result<Vec<Move>, Str
     Ok(lg)
 }
 
-fn one_game(root: &str, plies: usize, walk_depth: u32, rng: &mut Rng, out: &mut Out) -> Result<(), String> {
+fn one_game(root: &str, plies: usize, walk_depth: u32, capture: u64, rng: &mut Rng, out: &mut Out) -> Result<(), String> {
     let mut g = match guard(|| Game::new(root))? {
         Ok(g) => g,
         Err(e) => {
@@ -200,7 +200,10 @@ fn one_game(root: &str, plies: usize, walk_depth: u32, rng: &mut Rng, out: &mut 
         if lg.is_empty() {
             break;
         }
-        let m = pick(rng, &lg);
+        // --capture N: with N % a capture / promotion if there is one (games that trade down quickly and so cross
+        // the endgame threshold by play, through push_history, rather than by import)
+        let caps: Vec<Move> = lg.iter().copied().filter(|m| m.is_tactical_move()).collect();
+        let m = if !caps.is_empty() && rng.below(100) < capture as usize { caps[rng.below(caps.len())] } else { pick(rng, &lg) };
         let t = m.uci_notation();
         guard(|| g.push_history(m))?;
         emit(out, json!({"ev": "push", "mv": t, "hist": true, "o": obs::raw(&g)}));
@@ -222,9 +225,10 @@ pub fn run_play(args: &Args) {
     let games = args.num("games", 10) as usize;
     let plies = args.num("plies", 60) as usize;
     let walk_depth = args.num("walk", 2) as u32;
+    let capture = args.num("capture", 0) as u64;
     for gi in 0..games {
         let root = roots[(gi + rng.below(roots.len())) % roots.len()].clone();
-        if let Err(msg) = one_game(&root, plies, walk_depth, &mut rng, &mut out) {
+        if let Err(msg) = one_game(&root, plies, walk_depth, capture, &mut rng, &mut out) {
             emit(&mut out, json!({"ev": "panic", "msg": msg, "root": root}));
         }
     }
@@ -248,13 +252,19 @@ pub fn run_fens(args: &Args) {
                 }
             };
             emit(&mut out, json!({"ev": "new", "fen": obs::chars(&fen), "ok": true, "o": obs::raw(&g)}));
-            queries(&mut g, &mut out, true)?;
+            let lg = queries(&mut g, &mut out, true)?;
             if succ {
                 let ps = guard(|| obs::gen(&mut g, false))?;
                 for m in ps {
                     guard(|| g.push(m))?;
                     emit(&mut out, json!({"ev": "push", "mv": m.uci_notation(), "hist": false, "o": obs::raw(&g)}));
                     if succ_depth >= 2 {
+                        // the position right after the particular move, as reached by play (not by import): all the
+                        // queries, the export and the re-import of the export (legal first moves only: the queries
+                        // are judged against positions of the game)
+                        if lg.contains(&m) {
+                            queries(&mut g, &mut out, true)?;
+                        }
                         // one ply deeper: every reply to every move (a move right after a particular move)
                         let replies = guard(|| obs::gen(&mut g, false))?;
                         for r in replies {
